@@ -201,6 +201,27 @@ func (p *Program) Func(key string) *ssa.Function {
 		}
 		return nil
 	}
+	if k := strings.Index(key, "$"); k >= 0 {
+		// anonymous function: parent$1, parent$1$2 …
+		parent := p.Func(key[:k])
+		if parent == nil {
+			return nil
+		}
+		cur := parent
+		for _, part := range strings.Split(key[k+1:], "$") {
+			var next *ssa.Function
+			for _, af := range cur.AnonFuncs {
+				if strings.HasSuffix(af.Name(), "$"+part) {
+					next = af
+				}
+			}
+			if next == nil {
+				return nil
+			}
+			cur = next
+		}
+		return cur
+	}
 	i := strings.LastIndex(key, ".(")
 	if i >= 0 {
 		pkgRel := key[:i]
